@@ -14,6 +14,8 @@ from typing import Dict, List, Optional, Set, Tuple
 
 from sa.cfg import CFG, forward, witness_path
 from sa.model import AnalysisError, Function, Repo, calls_in, const_str, dotted, norm, own_nodes, parent
+from sa.cfg import guards as _guards
+from sa.match import Locals, truthiness
 from sa.report import Report
 
 MOD = "core.streaming_helpers"
@@ -133,7 +135,8 @@ def run(repo: Repo, rep: Report, tier: str) -> None:
         # emptiness filter must be on the stripped line only (blank lines are skipped, nothing else)
         tests = [n for n in own_nodes(nd.node) if isinstance(n, ast.If)]
         for t in tests:
-            if not (isinstance(t.test, ast.Name)):
+            tv = truthiness(t.test)
+            if not (tv is not None and isinstance(tv[0], ast.Name)):
                 rep.violation("R18.4", sub + " filter", f"{nd.fq}|filter|{norm(t.test)}",
                               f"records are filtered by `{norm(t.test)}`, not only blank lines", nd.loc(t))
             else:
@@ -254,16 +257,13 @@ def _sse_typestate(fn: Function, rep: Report) -> None:
     # states: 'U' undefined, 'E' empty, 'N' non-empty & unparsed, 'P' non-empty & parsed (handed to the parser)
     def transfer(node, v, label):
         a = node.ast
-        if node.kind == "test" and isinstance(a, ast.Name) and a.id == acc:
-            if label == "true":
-                return () if v == "E" else (v,)
-            if label == "false":
-                return ("E",) if v in ("E",) else ()
-        if node.kind == "test" and isinstance(a, ast.UnaryOp) and isinstance(a.op, ast.Not) and isinstance(a.operand, ast.Name) and a.operand.id == acc:
-            if label == "true":
+        if node.kind == "test" and a is not None and label in ("true", "false"):
+            tv = truthiness(a)
+            if tv is not None and isinstance(tv[0], ast.Name) and tv[0].id == acc:
+                nonempty_here = tv[1] if label == "true" else not tv[1]
+                if nonempty_here:
+                    return () if v == "E" else (v,)
                 return ("E",) if v == "E" else ()
-            if label == "false":
-                return () if v == "E" else (v,)
         if node.kind != "stmt" or a is None:
             return (v,)
         if is_reset(a):
@@ -308,25 +308,30 @@ def _sse_typestate(fn: Function, rep: Report) -> None:
     parse_nodes = [n for n in cfg.nodes if n.kind == "stmt" and n.ast is not None and parses(n.ast) and not n.copy]
     in_loop = [n for n in parse_nodes if _inside(n.ast, loop)]
     rep.require(bool(in_loop), "R18.2: no dispatch inside the loop")
+    def blank_sense(g, pol) -> Optional[bool]:
+        """True: this guard means 'the current line is blank'; False: 'the line is not blank'; None: some other test."""
+        tv = truthiness(g.ast)
+        if tv is not None and isinstance(tv[0], ast.Name) and tv[0].id == lv and pol is not None:
+            line_nonempty = tv[1] if pol else not tv[1]
+            return not line_nonempty
+        return None
+
     for n in in_loop:
-        guards = [cfg.nodes[d] for d in dom[n.id] if cfg.nodes[d].kind == "test"]
-        blank = [g for g in guards if isinstance(g.ast, ast.Compare) and isinstance(g.ast.left, ast.Name) and g.ast.left.id == lv
-                 and len(g.ast.comparators) == 1 and const_str(g.ast.comparators[0]) == "" and isinstance(g.ast.ops[0], ast.Eq)]
-        blank += [g for g in guards if isinstance(g.ast, ast.UnaryOp) and isinstance(g.ast.op, ast.Not) and isinstance(g.ast.operand, ast.Name) and g.ast.operand.id == lv]
-        if blank:
-            rep.ok("R18.2", sub0 + " dispatch on blank line", f"dispatch guarded by `{norm(blank[0].ast)}`", fn.loc(n.ast))
+        gs = [(g, pol) for g, pol in _guards(cfg, n.id, dom) if g.kind == "test" and _inside(g.stmt, loop)]
+        if any(blank_sense(g, pol) is True for g, pol in gs):
+            rep.ok("R18.2", sub0 + " dispatch on blank line", "dispatch happens exactly where the current line is blank", fn.loc(n.ast))
         else:
-            rep.violation("R18.2", sub0 + " dispatch on blank line", f"{fn.fq}|dispatch-guard|{[norm(g.ast) for g in guards]}",
-                          "event dispatch inside the loop is not guarded by the blank-line test", fn.loc(n.ast))
+            rep.violation("R18.2", sub0 + " dispatch on blank line", f"{fn.fq}|dispatch-guard",
+                          f"event dispatch inside the loop is not guarded by the blank-line test (guards: {[norm(g.ast) for g, _ in gs]})", fn.loc(n.ast))
     # append must be exactly the complement branch of the blank-line test (no line is dropped, none is both)
     app_nodes = [n for n in cfg.nodes if n.kind == "stmt" and n.ast is not None and has_append(n.ast)]
     for n in app_nodes:
-        guards = [cfg.nodes[d] for d in dom[n.id] if cfg.nodes[d].kind == "test" and _inside(cfg.nodes[d].stmt, loop)]
-        if len(guards) == 1 and isinstance(guards[0].ast, (ast.Compare, ast.UnaryOp)):
-            rep.ok("R18.2", sub0 + " every non-blank line collected", f"append guarded only by the negation of `{norm(guards[0].ast)}`", fn.loc(n.ast))
+        gs = [(g, pol) for g, pol in _guards(cfg, n.id, dom) if g.kind == "test" and _inside(g.stmt, loop) and pol is not None]
+        if len(gs) == 1 and blank_sense(*gs[0]) is False:
+            rep.ok("R18.2", sub0 + " every non-blank line collected", "append guarded only by 'the line is not blank'", fn.loc(n.ast))
         else:
-            rep.violation("R18.2", sub0 + " every non-blank line collected", f"{fn.fq}|append-guards|{[norm(g.ast) for g in guards]}",
-                          f"a non-blank line is collected only under extra conditions {[norm(g.ast) for g in guards]}: lines can be dropped", fn.loc(n.ast))
+            rep.violation("R18.2", sub0 + " every non-blank line collected", f"{fn.fq}|append-guards|{len(gs)}",
+                          f"a non-blank line is collected only under extra conditions {[norm(g.ast) for g, _ in gs]}: lines can be dropped", fn.loc(n.ast))
     # (d) every parsed event is yielded (bypass only through `if event:`)
     for n in parse_nodes + [x for x in cfg.nodes if x.kind == "stmt" and x.ast is not None and parses(x.ast) and x.copy]:
         if not isinstance(n.ast, ast.Assign) or not isinstance(n.ast.targets[0], ast.Name):
@@ -406,8 +411,9 @@ def _parse_event_rules(fn: Function, rep: Report) -> None:
     ret = [n for n in own_nodes(fn.node) if isinstance(n, ast.Return)]
     rep.require(len(ret) == 1, f"R18.3: _parse_sse_event has {len(ret)} returns")
     data_var = None
+    PL = Locals(fn.node)
     for r in ret:
-        for c in calls_in(r):
+        for c in [x for x in ast.walk(PL.inline(r)) if isinstance(x, ast.Call)]:
             if isinstance(c.func, ast.Attribute) and c.func.attr == "join" and c.args and isinstance(c.args[0], ast.Name):
                 sep = const_str(c.func.value)
                 data_var = c.args[0].id
@@ -430,7 +436,8 @@ def _parse_event_rules(fn: Function, rep: Report) -> None:
         for c in muts:
             n = [x for x in cfg.nodes if x.ast is not None and x.kind == "stmt" and any(cc is c for cc in calls_in(x.ast))][0]
             guards = [cfg.nodes[d] for d in dom[n.id] if cfg.nodes[d].kind == "test"]
-            g_ok = any(isinstance(g.ast, ast.Compare) and const_str(g.ast.comparators[0]) == "data" and isinstance(g.ast.ops[0], ast.Eq) for g in guards)
+            g_ok = any(isinstance(g.ast, ast.Compare) and len(g.ast.ops) == 1 and isinstance(g.ast.ops[0], ast.Eq)
+                       and "data" in (const_str(g.ast.comparators[0]), const_str(g.ast.left)) for g in guards)
             if g_ok:
                 rep.ok("R18.3", sub0 + " data order", "values appended in arrival order under `field == \"data\"`", fn.loc(c))
             else:
